@@ -95,7 +95,7 @@ def run_family(ctx, plan, mine, decision_owner):
     results = ctx.tlc_many(mcjobs + genjobs, parallel=4)
     for r in results:
         if r["violated"]:
-            ctx.note("TLC: %s violated in %s (model level; verdicts come from the replay on the real code)" % (r["violated"], r["name"]))
+            raise vlib.Machinery("TLC: %s violated in %s: the specification of the unchanged design does not satisfy its own invariant" % (r["violated"], r["name"]))
     for p, out in zip(plan, outs):
         s, f = replay(ctx, out, concs=p.get("concs", 3), expand=p.get("expand", 3), tag=os.path.basename(out))
         account(ctx, s, f, mine, decision_owner)
